@@ -27,6 +27,11 @@ def model_check(ctx, prop):
         runs += [("MC_Scanner", "MC_Scanner_en_thorough.cfg"), ("MC_Scanner", "MC_Scanner_en_thorough_hints.cfg")]
         runs += [("MC_Scanner", "MC_Scanner_%s_thorough.cfg" % l) for l in ["fr", "de", "es", "it", "nl", "pt"]]
         vlib.model_check_many(ctx, runs, workers_each=4, heap="6g")
+    if prop == "C07":
+        # S2 as a state machine over the full vocabulary: a rejected word changes nothing (failure atomicity lifted to the interpreters)
+        langs = ["en", "fr"] if q else LANGS
+        vlib.model_check_many(ctx, [("MC_Lang", "MC_Lang_%s.cfg" % l) for l in langs], workers_each=4, heap="4g")
+        vlib.mutant_refuted(ctx, "MC_Lang", os.path.join(vlib.SPEC, "MC_Lang_en_mut_shift.cfg"), "MC_Lang/Bug_ShiftNonAtomic")
     MUT = {"C07": ["en_mut_shift"], "C09": ["en_mut_thr", "en_mut_hold"], "C06": ["en_mut_hold"], "C02": ["en_mut_hold"], "C15": ["nl_mut_retry"]}
     for m in MUT.get(prop, []):
         vlib.mutant_refuted(ctx, "MC_Scanner", os.path.join(vlib.SPEC, "MC_Scanner_%s.cfg" % m), m)
